@@ -105,6 +105,7 @@ fn egraph_members(gens: &[Vec<u32>], perms: &[Vec<u32>], nm: &Naming, deg: usize
 fn main() {
     let args: Vec<String> = std::env::args().collect();
     install_hook();
+    start_watchdog(env_u64("VERIF_WATCHDOG", 90));
     if args[1] == "table" {
         let t: Arc<Table> = Arc::new(serde_json::from_str(&std::fs::read_to_string(&args[2]).unwrap()).unwrap());
         let threads: usize = args[3].parse().unwrap();
@@ -138,6 +139,7 @@ fn main() {
                     let i = next.fetch_add(1, Ordering::SeqCst);
                     if i >= t.trans.len() { break; }
                     let tr = &t.trans[i];
+                    if i % 64 == 0 { tick(&format!("group transition {i}")); }
                     let nm = &namings[i % namings.len()];
                     let expect: BTreeSet<usize> = tr.to.iter().map(|x| x - 1).collect();
                     let show = |ix: &Vec<usize>| -> Vec<Vec<u32>> { ix.iter().map(|x| t.perms[x - 1].clone()).collect() };
@@ -212,6 +214,7 @@ fn main() {
         let mut rng = StdRng::seed_from_u64(env_u64("VERIF_SEED", 0) ^ 0xC10);
         let mut panics = Vec::new();
         for c in 0..cases {
+            tick(&format!("group case {c}"));
             let deg = if c % 2 == 0 { 5 } else { 6 };
             let nm = Naming::new(NAMINGS[c % NAMINGS.len()], deg as u32);
             let rp = |rng: &mut StdRng| -> Vec<u32> {
